@@ -158,3 +158,51 @@ finding("C13-program-named-like-a-library-procedure", ["C13"],
         "a program whose procedure name equals the name of a bundled library procedure replaces that procedure in the bundle (the library's own body is lost)",
         {"C13": [C13CASE("10 CLS", procname="_ecb_cursor_color")]},
         switch="procname_not_library_name")
+
+finding("C08-cr-line-ends-not-respected-by-content-patterns", ["C08"],
+        "with CR (or CRLF) line ends a REM swallowed every following line into the comment; unquoted DATA items and unterminated string literals ran across CR line ends",
+        {"C08": [{"sources": ["10 REM HELLO\n20 CLS", "10 REM HELLO\r20 CLS"], "options": {}},
+                 {"sources": ["10 DATA ABC\n20 CLS", "10 DATA ABC\r\n20 CLS"], "options": {}},
+                 {"sources": ['10 A$="part\n20 CLS', '10 A$="part\r20 CLS'], "options": {}}]},
+        status="fixed", commit="ee8d520")
+finding("C08-hex-literal-inner-blanks", ["C08"],
+        "'& H FF' / '&H FF' raised VisitationError(ValueError) while '&HFF' converted",
+        {"C08": [{"sources": ["10 A=&HFF", "10 A=& H FF"], "options": {}}, {"sources": ["10 DIM B(&H1F)", "10 DIM B(&H 1F)"], "options": {}}]},
+        status="fixed", commit="33a0196")
+finding("C08-blank-only-line-rejected", ["C08"],
+        "a line holding only blanks in the middle of a program is rejected while an empty line is accepted",
+        {"C08": [{"sources": ["10 A=1\n\n20 B=2", "10 A=1\n \n20 B=2"], "options": {}}]},
+        switch="blank_lines_truly_empty")
+finding("C08-clear-comment-copies-source-layout", ["C08"],
+        "CLEAR is turned into a comment that carries the statement's source text, so blanks between CLEAR and its operand change the output bytes ('CLEAR  200' gives '(* CLEAR  200 *)')",
+        {"C08": [{"sources": ["10 CLEAR 200:CLS 0", "10 CLEAR  200:CLS 0"], "options": {}}]},
+        switch="clear_canonical_layout")
+finding("C08-trailing-nul-copied-into-content", ["C08"],
+        "a trailing NUL after a final REM, unquoted DATA item or unterminated string literal became part of that text and was copied into the output",
+        {"C08": [{"sources": ["10 REM HELLO", "10 REM HELLO\x00"], "options": {}}, {"sources": ["10 DATA ABC", "10 DATA ABC\x00"], "options": {}}]},
+        status="fixed", commit="a19f5d7")
+
+def C15(fid, what, buckets, witnesses, switch=None):
+    finding(fid, ["C15"], what, {"C15": witnesses}, switch=switch)
+    LANG_FINDINGS[-1]["buckets"] = buckets
+C15("C15-malformed-numeric-literal-valueerror",
+    "numeric-literal spellings the grammar accepts but float() does not ('.', '1E', '+-1', '--1') raise VisitationError(ValueError) from the parse visitor instead of a parse error",
+    [["ValueError", "parser.py:visit_num_literal"]],
+    [SRC("10 A=."), SRC("10 A=1E"), SRC("10 A=+-1"), SRC("10 DATA .")])
+C15("C15-hex-data-item-with-empty-item",
+    "a hex DATA item in a program that also has an empty DATA item raises AttributeError (HexLiteral.literal has no setter) when READ is patched for empty items",
+    [["AttributeError", "visitors.py:visit_data_statement", "literal"]],
+    [SRC("10 READ A\n20 DATA ,&HFF")], switch="no_hex_data_with_empty_item")
+C15("C15-hcircle-trailing-comma",
+    "'HCIRCLE(x,y),r,' (empty colour and nothing after it) raises AttributeError: 'Node' object has no attribute 'visit'",
+    [["AttributeError", "elements.py:visit", "'Node' object has no attribute 'visit'"]],
+    [SRC("10 HCIRCLE(A,B),C,")])
+C15("C15-procedure-name-with-non-word-characters",
+    "a procedure name the tool's own PROCNAME pattern admits but that contains '-' (or any text whose prefix matches, e.g. 'a b', 'a.b') raises UnboundLocalError in ProcedureBank.add_from_str; through the command line: input files such as my-prog.bas",
+    [["UnboundLocalError", "procbank.py:add_from_str"]],
+    [SRC("10 CLS", options={"output_dependencies": True, "procname": "my-prog"}),
+     {"kind": "cli", "stem": "my-prog", "source": "10 CLS", "argv": []}], switch="procname_word_chars_only")
+C15("C15-deep-nesting-recursionerror",
+    "about 150 nested parentheses (300 bytes of input) exhaust Python's recursion limit inside the PEG parser: RecursionError instead of a refusal",
+    [["RecursionError", "*"]],
+    [SRC("10 A=" + "(" * 200 + "1" + ")" * 200)], switch="nesting_le_60")
